@@ -73,7 +73,7 @@ class Core:
     """one generated Lean file: a set of methods reachable from each other"""
 
     def __init__(self, repo, name, sources, ignore=(), effects=None, observers=(), pure=None, records=None, links=None,
-                 consts=None, attr_effects=(), doc="", heap=False, opaque=None, oracles=None, ignore_targets=(), ignore_calls=()):
+                 consts=None, attr_effects=(), doc="", heap=False, opaque=None, oracles=None, ignore_targets=(), ignore_calls=(), observers_args=()):
         self.repo = repo
         self.name = name
         self.sources = sources  # list of (relative file, class name, [method names])
@@ -96,6 +96,7 @@ class Core:
         # values the core's configuration leaves out (timers): an assignment whose right-hand side calls one of these is dropped
         # and its target name is tainted; assignments computed from tainted names are dropped too; any other use is refused
         self.ignore_calls = [re.compile(p) for p in ignore_calls]
+        self.observers_args = set(observers_args)
         self.P = "Py.H." if heap else "Py."          # statement combinators
         self.EV = " env" if heap else ""             # the environment argument of the combinators
         self.XE = "ext env" if heap else "env"       # what a translated function gets first
@@ -120,7 +121,13 @@ class Core:
                     break
             if found is None:
                 raise Untranslatable(f"class {cls} not found in {rel}")
-            have = {n.name: n for n in found.body if isinstance(n, (ast.FunctionDef,))}
+            have = {}
+            for n in found.body:
+                if isinstance(n, ast.FunctionDef):
+                    # of a property's getter and setter (same name) the getter is the method of that name
+                    is_setter = any(isinstance(d, ast.Attribute) and d.attr in ("setter", "deleter") for d in n.decorator_list)
+                    if not is_setter:
+                        have[n.name] = n
             for m in names:
                 if m not in have:
                     raise Untranslatable(f"method {cls}.{m} not found in {rel}")
@@ -201,7 +208,7 @@ class Core:
             return None
         d = dotted(call.func)
         if d is not None and (d + "()" in self.observers or d in self.effects or d in self.pure or d in self.opaque
-                              or d in self.oracles or any(p.search(d) for p in self.ignore)):
+                              or d in self.oracles or d in self.observers_args or any(p.search(d) for p in self.ignore)):
             return None
         if obj == "self":
             tcls = cls
@@ -292,10 +299,35 @@ class Core:
                 self.read.add(prefix + d[4:])
                 return f"(env {lean_str(prefix + d[4:])})"
             raise Untranslatable(f"{where()}: attribute {d}")
+        if isinstance(e, ast.List):
+            items = []
+            for x in e.elts:
+                c = self.const_lookup(dotted(x)) if dotted(x) else (("const", x.value) if isinstance(x, ast.Constant) else None)
+                c = c[1] if isinstance(c, tuple) else None
+                if not isinstance(c, str):
+                    raise Untranslatable(f"{where()}: list display with an element that is not a string constant")
+                items.append(lean_str(c))
+            return f"(Py.V.strs [{', '.join(items)}])"
+        if isinstance(e, ast.Call) and isinstance(e.func, ast.Attribute) and e.func.attr in ("strip", "find") and not e.keywords \
+                and dotted(e.func) not in self.observers and (dotted(e.func) or "") not in self.opaque:
+            recv = self.expr(e.func.value, ctx)
+            if e.func.attr == "strip" and not e.args:
+                return f"(Py.strip_ {recv})"
+            if e.func.attr == "find" and len(e.args) == 1:
+                return f"(Py.find_ {recv} {self.expr(e.args[0], ctx)})"
         if isinstance(e, ast.Call):
             d = dotted(e.func)
             if d is None:
                 raise Untranslatable(f"{where()}: call of a computed function")
+            if d in self.observers_args and d.startswith("self") and not e.keywords:
+                # a question to the object's surroundings with constant arguments: one environment key per argument list
+                args = []
+                for a in e.args:
+                    c = self.const_lookup(dotted(a)) if dotted(a) else (("const", a.value) if isinstance(a, ast.Constant) else None)
+                    if not isinstance(c, tuple):
+                        raise Untranslatable(f"{where()}: observer {d} with a non-constant argument")
+                    args.append(str(c[1]))
+                return f"(env {lean_str(prefix + d[4:] + '(' + ', '.join(args) + ')')})"
             if d == "isinstance" and len(e.args) == 2 and isinstance(e.args[1], ast.Name) and e.args[1].id in ("bool", "int", "str"):
                 return f"(Py.isinstance_{e.args[1].id} {self.expr(e.args[0], ctx)})"
             if d in self.pure:
